@@ -108,6 +108,7 @@ type c20Watcher struct {
 	gate    chan bool
 	mu      sync.Mutex
 	cur     *c20Stream
+	compact *int64 // the lane's last compaction revision (the harness compacts itself)
 }
 
 func (w *c20Watcher) Watch(ctx context.Context, key string, opts ...clientv3.OpOption) clientv3.WatchChan {
@@ -134,9 +135,18 @@ func (w *c20Watcher) Watch(ctx context.Context, key string, opts ...clientv3.OpO
 	case first, ok = <-real:
 	case <-time.After(10 * time.Second):
 	}
+	if ok && first.Created && !first.Canceled && startRev != 0 && startRev < atomic.LoadInt64(w.compact) {
+		// the requested start revision is compacted: etcd registers the watcher and
+		// cancels it as soon as its sync loop sees it; wait for that response
+		select {
+		case first, ok = <-real:
+		case <-time.After(10 * time.Second):
+			ok = false
+		}
+	}
 	if !ok || first.Canceled || first.CompactRevision != 0 || !first.Created {
-		// cancelled at creation (compacted start revision): the router sees the error
-		// response and then the closed channel
+		// cancelled (compacted start revision): the router sees the error response and
+		// then the closed channel
 		go func() {
 			if ok {
 				select {
@@ -166,7 +176,8 @@ func (w *c20Watcher) Close() error                            { return nil }
 // ---------- one lane = one embedded etcd ----------
 
 type c20Lane struct {
-	cli *clientv3.Client
+	cli     *clientv3.Client
+	compact int64
 }
 
 const c20OtherKey = "/kafscale/verif-other"
@@ -212,7 +223,7 @@ func c20Exec(l *c20Lane, cs c20Case) (res c20Run) {
 	defer cancelAll()
 	reached := make(chan c20Sig)
 	kv := &c20KV{KV: l.cli.KV, ctx: ctx, reached: reached, gate: make(chan bool)}
-	wt := &c20Watcher{inner: l.cli.Watcher, ctx: ctx, reached: reached, gate: make(chan bool)}
+	wt := &c20Watcher{inner: l.cli.Watcher, ctx: ctx, reached: reached, gate: make(chan bool), compact: &l.compact}
 	rc := clientv3.NewCtxClient(ctx)
 	rc.KV = kv
 	rc.Watcher = wt
@@ -273,6 +284,8 @@ func c20Exec(l *c20Lane, cs c20Case) (res c20Run) {
 		wt.mu.Lock()
 		if wt.cur != nil {
 			wt.cur.cancel()
+			close(wt.cur.out)
+			wt.cur = nil
 		}
 		wt.mu.Unlock()
 		select {
@@ -453,6 +466,12 @@ func c20Exec(l *c20Lane, cs c20Case) (res c20Run) {
 			}
 			record("EOther")
 		case "compact":
+			if phase == 2 {
+				// etcd moves a watcher that starts in the past to its synced group only in
+				// a 100 ms loop; a compaction racing with that loop cancels it or not. The
+				// schedule therefore compacts only while no stream is open.
+				return true
+			}
 			resp, err := l.cli.Put(bg, c20OtherKey, "c")
 			if err != nil {
 				res.harness = err.Error()
@@ -462,6 +481,7 @@ func c20Exec(l *c20Lane, cs c20Case) (res c20Run) {
 				res.harness = "compact: " + err.Error()
 				return false
 			}
+			atomic.StoreInt64(&l.compact, resp.Header.Revision)
 			record("ECompact")
 		case "load_ok", "load_fail":
 			if phase != 0 && phase != 3 {
@@ -693,28 +713,54 @@ func c20Gen(r *vRand) c20Case {
 			return c20Step{Op: "put", Key: r.Intn(len(cs.Keys)), Val: vals[r.Intn(len(vals))]}
 		}
 	}
-	n := r.Range(4, 16)
-	closes := 0
+	// the router's position is tracked approximately (a watch cancelled by compaction is
+	// not foreseen; steps that do not apply are skipped by the runner)
+	n := r.Range(5, 18)
+	closes, ph := 0, 0
 	for i := 0; i < n; i++ {
-		switch x := r.Intn(100); {
-		case x < 45:
+		if r.Chance(45) {
 			cs.Steps = append(cs.Steps, write())
-		case x < 55:
-			cs.Steps = append(cs.Steps, c20Step{Op: "load_ok"})
-		case x < 60:
-			cs.Steps = append(cs.Steps, c20Step{Op: "load_fail"})
-		case x < 75:
-			cs.Steps = append(cs.Steps, c20Step{Op: "watch"})
-		case x < 85:
-			cs.Steps = append(cs.Steps, c20Step{Op: "deliver"})
-		case x < 89:
-			cs.Steps = append(cs.Steps, c20Step{Op: "drain"})
-		case x < 93:
-			cs.Steps = append(cs.Steps, c20Step{Op: "compact"})
-		default:
-			if closes < 2 { // every close costs the router's one-second back-off
+			continue
+		}
+		x := r.Intn(100)
+		switch ph {
+		case 0:
+			if x < 80 {
+				cs.Steps = append(cs.Steps, c20Step{Op: "load_ok"})
+				ph = 1
+			} else {
+				cs.Steps = append(cs.Steps, c20Step{Op: "load_fail"})
+			}
+		case 1:
+			if x < 85 {
+				cs.Steps = append(cs.Steps, c20Step{Op: "watch"})
+				ph = 2
+			} else {
+				cs.Steps = append(cs.Steps, c20Step{Op: "compact"})
+			}
+		case 2:
+			switch {
+			case x < 40:
+				cs.Steps = append(cs.Steps, c20Step{Op: "deliver"})
+			case x < 60:
+				cs.Steps = append(cs.Steps, c20Step{Op: "drain"})
+			case closes < 2: // every close costs the router's one-second back-off
 				closes++
 				cs.Steps = append(cs.Steps, c20Step{Op: "close"})
+				ph = 3
+			default:
+				cs.Steps = append(cs.Steps, c20Step{Op: "deliver"})
+			}
+		case 3:
+			switch {
+			case x < 45:
+				cs.Steps = append(cs.Steps, c20Step{Op: "load_ok"})
+				ph = 1
+			case x < 80:
+				cs.Steps = append(cs.Steps, c20Step{Op: "load_fail"})
+				ph = 1
+			default:
+				cs.Steps = append(cs.Steps, c20Step{Op: "compact"})
 			}
 		}
 	}
@@ -722,7 +768,7 @@ func c20Gen(r *vRand) c20Case {
 }
 
 func TestVerifC20(t *testing.T) {
-	rep := vNewReport("C20", "generated histories (4-16 steps) on a real PartitionRouter/GroupRouter with embedded etcd: lease puts/deletes/multi-key transactions, writes outside the prefix, compactions, loadAll successes and injected failures, the Watch call, single watch responses, stream closes; a case is non-trivial when a lease write falls between a loadAll and the following Watch call, or while the stream is closed, or a reload fails, or a resumed watch is cancelled by compaction; distinct = distinct canonical (kind, keys, steps)")
+	rep := vNewReport("C20", "generated histories (5-18 steps) on a real PartitionRouter/GroupRouter with embedded etcd: lease puts/deletes/multi-key transactions, writes outside the prefix, compactions, loadAll successes and injected failures, the Watch call, single watch responses, stream closes; a case is non-trivial when a lease write falls between a loadAll and the following Watch call, or while the stream is closed, or a reload fails, or a resumed watch is cancelled by compaction; distinct = distinct canonical (kind, keys, steps)")
 	corpus := []c20Case{
 		// the design-round witness: load; put; start watch
 		{Kind: 1, Canon: true, Keys: []c20Key{{Rem: "g"}}, Steps: []c20Step{{Op: "load_ok"}, {Op: "put", Key: 0, Val: "1"}, {Op: "watch"}}},
@@ -753,6 +799,7 @@ func TestVerifC20(t *testing.T) {
 		nl = 1
 	}
 	lanes := make([]*c20Lane, nl)
+	t0 := time.Now()
 	for i := range lanes {
 		eps := testutil.StartEmbeddedEtcd(t)
 		cli, err := clientv3.New(clientv3.Config{Endpoints: eps, DialTimeout: 5 * time.Second})
@@ -762,6 +809,8 @@ func TestVerifC20(t *testing.T) {
 		defer cli.Close()
 		lanes[i] = &c20Lane{cli: cli}
 	}
+	t.Logf("started %d embedded etcd servers in %v", nl, time.Since(t0))
+	t0 = time.Now()
 	type outT struct {
 		run    c20Run
 		shrunk *c20Case
@@ -795,6 +844,7 @@ func TestVerifC20(t *testing.T) {
 		}(li)
 	}
 	wg.Wait()
+	t.Logf("ran %d cases in %v", len(cases), time.Since(t0))
 	var coq, jsons []string
 	for i, cs := range cases {
 		o := outs[i]
